@@ -336,6 +336,34 @@ theorem cont_run {fl : Bool} (tmpl : Term) (max : Nat) (prog : List Term) (hprog
           · have := altRel_match (fl := true) (d := d) (θ0 := θ0) [] hW1 hgD clauseC_ite2 rfl (by rw [hig]; rfl) bv_ite2
               (.cons d (fun _ => rfl) (.cons l (fun h => by cases h) .nil))
             exact this
+      | once x hx =>
+        -- once/1: `once(P) :- P, !.`; the reference: `(call(P) -> true)`
+        subst hx
+        subst hfl
+        simp only [functorName, argList, Args.toList] at harr
+        rw [builtin_once] at harr
+        have hig : img σ1 π (.app "once" (.cons x .nil)) = .app "once" (.cons (img σ1 π x) .nil) := rfl
+        rw [hig] at hs
+        cases n' with
+        | zero =>
+          exfalso
+          rw [SLD.solve] at hs
+          · simp [SLD.functor, Args.toList, SLD.builtin, solve_zero] at hs
+          · intro v hv; cases hv
+        | succ n'' =>
+        rw [solve_once] at hs
+        let θ0 : Subst := fun _ => img σ1 π x
+        refine call_boot (its := [(once1, some (.frames ([.goal (SLD.call1 (SLD.call1 (img σ1 π x))) d,
+              .goal (.atom "!") d] ++ [l].map skipF)))])
+          hprog hW1 hcg' hgr1 hco' hq1 hgD (Or.inr ⟨_, _, rfl, by simp [Args.length]⟩) userPred_once
+          (by obtain ⟨p0, h1, h2⟩ := boot_once; exact ⟨p0, h1, by simpa using h2⟩) hN hst ?_ ?_ hs
+        · intro pr hpr
+          simp only [functorName, argList, Args.toList] at hpr
+          rw [hpr] at harr
+          simpa [functorName, argList, Args.toList] using harr
+        · refine .cons ?_ .nil
+          exact altRel_match (fl := true) (d := d) (θ0 := θ0) [l] hW1 hgD clauseC_once1 rfl (by rw [hig]; rfl) bv_once1
+            (.callw d (.cons d (fun _ => rfl) .nil))
       | ifthen c t hx =>
         subst hx
         subst hfl
